@@ -48,6 +48,11 @@ def tyj_of_str(s):
     return {'t': 'other', 's': s}
 
 
+class Fork(Exception):
+    def __init__(self, vid):
+        self.vid = vid
+
+
 class Frame:
     __slots__ = ('body', 'locals', 'fn')
 
@@ -59,6 +64,7 @@ class Frame:
 
 class Exec(Interp):
     _const_depth = 0
+    split_bool_casts = False
 
     # ---- cells / places ---------------------------------------------------------------------------
     def local_cell(self, st, fr, l):
@@ -298,6 +304,8 @@ class Exec(Interp):
         if kind == 'IntToInt':
             if v[0] == 'bool':
                 b = st.bv.get(v[1])
+                if b is None and (self.split_bool_casts is True or (self.split_bool_casts and any(p in fr.fn for p in self.split_bool_casts))):
+                    raise Fork(v[1])        # branchless code: evaluate the statement once per truth value
                 iv = self.mk_int(st, to, 0 if b is None else int(b), 1 if b is None else int(b))
                 self.idef[iv[2]] = ('boolcast', v[1])
                 return iv
@@ -308,7 +316,10 @@ class Exec(Interp):
             if lo >= tl and hi <= th:
                 return ('int', to, v[2])       # lossless: same mathematical value
             self.truncations.append((fr.fn, v[1], to, (lo, hi)))
-            return self.mk_int(st, to)
+            tv = self.mk_int(st, to)
+            self.idef[tv[2]] = ('trunc', v[2], to)
+            self.trunc_of.setdefault(v[2], []).append(tv[2])
+            return tv
         if kind == 'IntToFloat':
             if v[0] == 'int':
                 lo, hi = self.rng(st, v[2])
@@ -352,6 +363,26 @@ class Exec(Interp):
         lb, hb = self.rng(st, y)
         tl, th = INT_RANGE.get(ty, (-(2 ** 127), 2 ** 127))
         base = op.replace('WithOverflow', '').replace('Unchecked', '')
+        # identities keep the value id (and with it every relation known about the operand)
+        ident = None
+        if base == 'Mul':
+            if (la, ha) == (1, 1):
+                ident = y
+            elif (lb, hb) == (1, 1):
+                ident = x
+            elif (la, ha) == (0, 0) or (lb, hb) == (0, 0):
+                ident = self.mk_const_int(st, ty, 0)[2]
+        elif base == 'Add':
+            if (la, ha) == (0, 0):
+                ident = y
+            elif (lb, hb) == (0, 0):
+                ident = x
+        elif base == 'Sub' and (lb, hb) == (0, 0):
+            ident = x
+        if ident is not None:
+            if op.endswith('WithOverflow'):
+                return ('tuple', (self.alloc(st, ('int', ty, ident)), self.alloc(st, self.mk_bool(st, False))))
+            return ('int', ty, ident)
         lo = hi = None
         if base == 'Add':
             lo, hi = la + lb, min(ha + hb, self.sum_upper(st, x, y))
@@ -415,6 +446,19 @@ class Exec(Interp):
         return ('int', ty, res)
 
     def note_rel(self, st, base, res, x, y):
+        if base == 'Add':
+            for p, q in ((x, y), (y, x)):
+                if self.rng(st, q) == (1, 1):
+                    # p < c  =>  p + 1 <= c
+                    for c, strict in self.upper_set(st, p).items():
+                        if strict and c != res:
+                            st.rel.add(('le', res, c))
+        if base == 'Sub' and self.rng(st, y) == (1, 1):
+            # x - 1 < x
+            st.rel.add(('lt', res, x))
+            for r_ in list(st.rel):
+                if r_[0] in ('lt', 'le') and r_[1] == x:
+                    st.rel.add(('lt', res, r_[2]))
         if base == 'Sub' and self.rng(st, y)[0] >= 0:
             st.rel.add(('le', res, x))
         if base == 'Div' and self.rng(st, y)[0] >= 1 and self.rng(st, x)[0] >= 0:
@@ -569,10 +613,10 @@ class Exec(Interp):
         for i, a in enumerate(args):
             fr.locals[i + 1] = self.alloc(st, a)
         outs = []
-        work = [(st, 0, fr.locals, ())]
+        work = [(st, 0, fr.locals, (), 0)]
         while work:
-            s, bb, locs, trail = work.pop()
-            if trail.count(bb) >= 2:
+            s, bb, locs, trail, start = work.pop()
+            if start == 0 and trail.count(bb) >= 2:
                 # a back edge taken twice on one path: loops are not summarised (no widening); reported, not guessed
                 self.undecided_loops[body.id] = self.undecided_loops.get(body.id, 0) + 1
                 continue
@@ -582,22 +626,37 @@ class Exec(Interp):
             f2 = Frame(body)
             f2.locals = locs
             try:
-                nxt = self.run_block(s, f2, bb, chain, depth, outs)
+                nxt = self.run_block(s, f2, bb, chain, depth, outs, start)
             except Infeasible:
                 continue
-            tr2 = trail + (bb,) if body.has_loop() else ()
-            for (s2, b2) in nxt:
-                work.append((s2, b2, dict(f2.locals) if len(nxt) > 1 else f2.locals, tr2))
+            tr2 = trail + (bb,) if (body.has_loop() and start == 0) else trail
+            for item in nxt:
+                s2, b2 = item[0], item[1]
+                st2 = item[2] if len(item) > 2 else 0
+                work.append((s2, b2, dict(f2.locals) if len(nxt) > 1 else f2.locals, tr2 if st2 == 0 else trail, st2))
             if len(work) > 4000:
                 raise Budget('too many pending paths in %s' % body.id)
         return outs
 
-    def run_block(self, st, fr, bb, chain, depth, outs):
+    def run_block(self, st, fr, bb, chain, depth, outs, start=0):
         body = fr.body
         blk = body.blocks[bb]
-        for s in blk['stmts']:
+        for si, s in enumerate(blk['stmts']):
+            if si < start:
+                continue
             if s['s'] == 'assign':
-                val = self.rvalue(st, fr, s['rv'])
+                try:
+                    val = self.rvalue(st, fr, s['rv'])
+                except Fork as fk:
+                    res = []
+                    for truth in (False, True):
+                        s2 = st.copy()
+                        try:
+                            self.assume_bool(s2, fk.vid, truth)
+                        except Infeasible:
+                            continue
+                        res.append((s2, bb, si))
+                    return res
                 self.store(st, fr, s['pl'], val)
             elif s['s'] == 'setdiscr':
                 c = self.place_cell(st, fr, s['pl'], True)
@@ -873,6 +932,12 @@ class Exec(Interp):
             variants.add('None')
         return ('adt', 'std::option::Option', frozenset(variants), fields)
 
+    def dest_payload_top(self, st, fr, t):
+        tj = fr.body.locals[t['dest']['l']]['tyj'] if not t['dest']['p'] else tyj_of_str(t['dest']['ty'])
+        if tj.get('t') == 'adt' and tj.get('args'):
+            return self.top_of(st, tj['args'][0])
+        return ('top', '?')
+
     def dest_top(self, st, fr, t):
         if not t['dest']['p']:
             return self.top_of(st, fr.body.locals[t['dest']['l']]['tyj'])
@@ -960,6 +1025,8 @@ class Exec(Interp):
                         lo = max(lo, 1)
                     r = self.mk_int(st, ty, lo, hi)
                     self.idef[r[2]] = ('sat_sub', x, y)
+                    if (lb, hb) == (1, 1):
+                        self.dec_of.setdefault(x, []).append(r[2])
                     st.rel.add(('le', r[2], x))
                     return [(st, r)]
                 if name == 'saturating_mul':
@@ -1244,6 +1311,14 @@ class Exec(Interp):
                 return [(st, self.mk_const_int(st, ty, 0))]
             if ty == 'bool':
                 return [(st, self.mk_bool(st, False))]
+        if name == 'get' and d.startswith('core::slice::') and len(A) == 2:
+            bufv = dv(A[0])
+            if bufv[0] == 'buf' and A[1][0] == 'int':
+                if self.prove_lt(st, A[1][2], bufv[1]):
+                    return [(st, self.mk_option(st, self.dest_payload_top(st, fr, t), False))]
+                if self.prove_le(st, bufv[1], A[1][2]):
+                    return [(st, self.mk_option(st, None, True))]
+                return [(st, self.mk_option(st, self.dest_payload_top(st, fr, t), True))]
         if name in ('sum', 'product', 'fold', 'count', 'contains', 'mul_add', 'cmp', 'partial_cmp', 'collect', 'map', 'rev', 'zip', 'enumerate',
                     'next', 'copied', 'cloned', 'skip', 'take', 'all', 'any', 'for_each', 'reduce', 'windows', 'step_by', 'first', 'last',
                     'get', 'get_unchecked', 'get_unchecked_mut', 'sort_unstable_by', 'sort_unstable_by_key', 'sort_by', 'sort_by_key', 'sort_unstable', 'sort',
